@@ -2,7 +2,7 @@
    confined.  Only statements; every proof is [exact <lemma of Proofs/AmdProofs.v>].
    The model (Model/Amd.v) is of the code with the repairs fixes/C17-psb-key-bits.diff and
    fixes/C17-efs-offset-wrap.diff applied. *)
-From Fiano Require Import Base.Bytes Gen.Consts Model.Amd Proofs.AmdProofs.
+From Fiano Require Import Base.Bytes Gen.Consts Model.Amd Proofs.AmdProofs Proofs.AmdLocateProofs.
 Open Scope Z_scope.
 
 (* the block-deferred uint32 implementation equals the mathematical definition
@@ -147,6 +147,52 @@ Theorem C17_psp_level1_located :
 Proof. exact (conj psp_level1_by_pointer psp_level1_by_scan). Qed.
 Print Assumptions C17_psp_level1_located.
 
+(* which BIOS level-1 directory: the four EFS pointer slots are tried in the order 00h-0Fh, 10h-1Fh,
+   30h-3Fh, 60h-...; a slot that is zero, beyond the image or not a directory ([slot_rejected]) is
+   passed over, the first other one decides; with no usable slot the first "$BHD" whose table parses *)
+Theorem C17_bios_level1_located :
+  (forall image e pre p post t len,
+    [efs_bios0 e; efs_bios1 e; efs_bios2 e; efs_bios3 e] = pre ++ p :: post ->
+    (forall q, In q pre -> slot_rejected image q) ->
+    p <> 0 -> 0 <= p <= zlen image -> parse_bios_table (zskipn p image) = Ok (t, len) ->
+    bios_level1 image e = Ok (Some (t, p, len))) /\
+  (forall image e idx t len,
+    (forall q, In q [efs_bios0 e; efs_bios1 e; efs_bios2 e; efs_bios3 e] -> slot_rejected image q) ->
+    find_sub amd_bios_cookie_bytes image = Some idx ->
+    parse_bios_table (zskipn idx image) = Ok (t, len) ->
+    bios_level1 image e = Ok (Some (t, idx, len))).
+Proof. exact (conj bios_level1_by_pointer bios_level1_by_scan). Qed.
+Print Assumptions C17_bios_level1_located.
+
+(* which level-2 directory: the one at the location of the FIRST level-1 entry of the level-2 type
+   (0x40 / 0x70), read as an image offset of any size below the image length; none when there is no
+   such entry or its location is zero or not below the image length *)
+Theorem C17_level2_located :
+  (forall image t e t2 len,
+    find (fun e => pe_type e =? amd_psp_l2_entry_type) (dt_entries t) = Some e ->
+    pe_loc e <> 0 -> 0 <= pe_loc e < zlen image ->
+    parse_psp_table (zskipn (pe_loc e) image) = Ok (t2, len) ->
+    psp_level2 image t = Ok (Some (t2, pe_loc e, len))) /\
+  (forall image t,
+    (find (fun e => pe_type e =? amd_psp_l2_entry_type) (dt_entries t) = None \/
+     exists e, find (fun e => pe_type e =? amd_psp_l2_entry_type) (dt_entries t) = Some e /\
+               (pe_loc e = 0 \/ zlen image <= pe_loc e)) ->
+    psp_level2 image t = Ok None) /\
+  (forall image t e t2 len,
+    find (fun e => be_type e =? amd_bios_l2_entry_type) (dt_entries t) = Some e ->
+    be_src e <> 0 -> 0 <= be_src e < zlen image ->
+    parse_bios_table (zskipn (be_src e) image) = Ok (t2, len) ->
+    bios_level2 image t = Ok (Some (t2, be_src e, len))) /\
+  (forall image t,
+    (find (fun e => be_type e =? amd_bios_l2_entry_type) (dt_entries t) = None \/
+     exists e, find (fun e => be_type e =? amd_bios_l2_entry_type) (dt_entries t) = Some e /\
+               (be_src e = 0 \/ zlen image <= be_src e)) ->
+    bios_level2 image t = Ok None).
+Proof.
+  exact (conj psp_level2_by_entry (conj psp_level2_absent (conj bios_level2_by_entry bios_level2_absent))).
+Qed.
+Print Assumptions C17_level2_located.
+
 (* discovery is total (no panic; the scan fuel S (length image) is enough) and every decoded
    entry field is an unsigned number of its width *)
 Theorem C17_parse_firmware_total :
@@ -173,6 +219,22 @@ Theorem C17_extract_exact :
     extract_psp_entry fw image level id = Ok (sub (pe_loc e) (pe_size e) image)).
 Proof. exact (conj extract_psp_exact (conj extract_bios_exact extract_psp_total)). Qed.
 Print Assumptions C17_extract_exact.
+
+(* the two directions [C17_extract_exact] leaves open: a BIOS entry inside the image is extracted, and an
+   entry (PSP or BIOS) whose 64-bit location plus size does not lie inside the image is refused: the
+   location is neither truncated nor wrapped *)
+Theorem C17_extract_total_and_refusal :
+  (forall fw image level id inst e, zlen image < two64 -> fw_wf fw ->
+    get_bios_entry fw level id inst = Ok e -> be_src e + be_size e <= zlen image ->
+    extract_bios_entry fw image level id inst = Ok (sub (be_src e) (be_size e) image)) /\
+  (forall fw image level id e, fw_wf fw ->
+    get_psp_entry fw level id = Ok e -> zlen image < pe_loc e + pe_size e ->
+    extract_psp_entry fw image level id = Err E_INVALID) /\
+  (forall fw image level id inst e, fw_wf fw ->
+    get_bios_entry fw level id inst = Ok e -> zlen image < be_src e + be_size e ->
+    extract_bios_entry fw image level id inst = Err E_INVALID).
+Proof. exact (conj extract_bios_total extract_outside_refused). Qed.
+Print Assumptions C17_extract_total_and_refusal.
 
 (* a patched image differs from the original only inside the entry's range *)
 Theorem C17_patch_confined :
@@ -276,6 +338,26 @@ Example ex_patch :
   patch_psp_entry ex_fw ex_image 1 0 (zrepeat 1 64) = Ok (zrepeat 170 256 ++ zrepeat 1 64 ++ zrepeat 204 704) /\
   patch_psp_entry ex_fw ex_image 1 0 (zrepeat 1 63) = Err E_INVALID.
 Proof. vm_compute. split; reflexivity. Qed.
+
+(* a BIOS directory reached through the fourth pointer slot although an (empty) directory lies in front
+   of it; the first three slots are zero, beyond the image, and not a directory *)
+Definition ex_bios_image : bytes :=
+  zrepeat 255 8 ++ [36;66;72;68; 0;0;0;0; 0;0;0;0; 0;0;0;0] ++ zrepeat 255 16 ++ ex_bios_table ++ zrepeat 255 8.
+Definition ex_efs : efs := mkEfs amd_efs_signature (zrepeat 0 16) 0 0 1000 2 7 40 (zrepeat 0 30).
+Example ex_bios_level1 :
+  match bios_level1 ex_bios_image ex_efs with
+  | Ok (Some (t, off, len)) => off = 40 /\ len = 40 /\ dt_total t = 1
+  | _ => False
+  end /\ find_sub amd_bios_cookie_bytes ex_bios_image = Some 8.
+Proof. vm_compute. repeat split; reflexivity. Qed.
+
+(* an entry whose location has bit 32 set is refused although its low half lies inside the image *)
+Definition ex_fw_far : psp_fw :=
+  mkFw (dec_efs (zrepeat 0 74)) 0 74
+       (Some (mkDir amd_psp_cookie 0 1 0 [mkPspEntry 1 0 0 16 (4294967296 + 256)], 0, 32))
+       None None None.
+Example ex_extract_far : extract_psp_entry ex_fw_far ex_image 1 1 = Err E_INVALID.
+Proof. vm_compute. reflexivity. Qed.
 
 (* the discovery theorems on a real-size layout are exercised by the correspondence run
    (images of 384 KiB and more); here the probe arithmetic at the first anchor *)
